@@ -1,9 +1,9 @@
 package main
 
 import (
-	"regexp"
 	"fmt"
 	"go/types"
+	"regexp"
 	"sort"
 	"strings"
 
@@ -354,17 +354,17 @@ func short(s string) string {
 // arithmetic or data-structure invariant the generic dominance rule cannot derive; where a guard
 // establishes the invariant, that guard is required by a row of c10GuardRows.
 var reviewedSinks = map[string]string{
-	"(consensus.ElementAccumulator).UnmarshalJSON:index:index …":     "v.Trees is consumed once per set bit of NumLeaves after the guard len(v.Trees) == OnesCount64(NumLeaves) (row accumulator-json-length)",
-	"(consensus.ElementAccumulator).UnmarshalJSON:slice-low:slice-low …": "same invariant as the index above",
-	"(gateway.V2BlockOutline).decodeFrom:index:index …":      "txns/v2txns/hashes are consumed once per kind after the cross-check counts[k] == len(...) (rows outline-kind-range, outline-count-crosscheck)",
-	"(gateway.V2BlockOutline).decodeFrom:slice-low:slice-low …": "as above",
-	"(types.V2TransactionsMultiproof).DecodeFrom:make:make []types.Hash256": "proof lengths bits.Len64(index^count)-1 are non-negative because index < count was checked (row multiproof-leaf-index); the multiproof buffer is sized from those proofs after the bail-out on error (row multiproof-bail-on-error)",
-	"(types.SatisfiedPolicy).UnmarshalJSON:index:index zero":  "sp.Preimages is made with len(pre) just above; the loop ranges it",
-	"consensus.hashAll:panic:panic call fmt.Sprintf(const:\"unhandled type %T\", zero)": "arguments are statically typed at every call site (each call is modelled argument by argument by the wire extractor; an unhandled static type makes C12 undecided)",
-	"types.hashAll:panic:panic const:\"unhandled type\"":      "as above",
-	"consensus.ValidateHeader:div:div call (consensus.State).NonceFactor({consensus.State})": "the divisor is 1 or the network's configured ASIC nonce factor: operator configuration, not untrusted input",
+	"(consensus.ElementAccumulator).UnmarshalJSON:index:index …":                                                              "v.Trees is consumed once per set bit of NumLeaves after the guard len(v.Trees) == OnesCount64(NumLeaves) (row accumulator-json-length)",
+	"(consensus.ElementAccumulator).UnmarshalJSON:slice-low:slice-low …":                                                      "same invariant as the index above",
+	"(gateway.V2BlockOutline).decodeFrom:index:index …":                                                                       "txns/v2txns/hashes are consumed once per kind after the cross-check counts[k] == len(...) (rows outline-kind-range, outline-count-crosscheck)",
+	"(gateway.V2BlockOutline).decodeFrom:slice-low:slice-low …":                                                               "as above",
+	"(types.V2TransactionsMultiproof).DecodeFrom:make:make []types.Hash256":                                                   "proof lengths bits.Len64(index^count)-1 are non-negative because index < count was checked (row multiproof-leaf-index); the multiproof buffer is sized from those proofs after the bail-out on error (row multiproof-bail-on-error)",
+	"(types.SatisfiedPolicy).UnmarshalJSON:index:index zero":                                                                  "sp.Preimages is made with len(pre) just above; the loop ranges it",
+	"consensus.hashAll:panic:panic call fmt.Sprintf(const:\"unhandled type %T\", zero)":                                       "arguments are statically typed at every call site (each call is modelled argument by argument by the wire extractor; an unhandled static type makes C12 undecided)",
+	"types.hashAll:panic:panic const:\"unhandled type\"":                                                                      "as above",
+	"consensus.ValidateHeader:div:div call (consensus.State).NonceFactor({consensus.State})":                                  "the divisor is 1 or the network's configured ASIC nonce factor: operator configuration, not untrusted input",
 	"(consensus.MidState).resolveV2FileContractElement:panic:panic const:\"consensus: resolved a newly-created v2 contract\"": "a resolution's parent must be an unresolved leaf of the base accumulator (C02 row v2-live:FileContractResolutions), which a contract created in this block is not",
-	"(types.StateElement).Move:panic:panic const:\"Move called on shared StateElement\"": "reached from JSON unmarshalling of updates, where the decoded leaves own their memory (the shared marker is unexported and never set by decoding)",
+	"(types.StateElement).Move:panic:panic const:\"Move called on shared StateElement\"":                                      "reached from JSON unmarshalling of updates, where the decoded leaves own their memory (the shared marker is unexported and never set by decoding)",
 }
 
 // MidState-internal indices: elements[id] is written only together with an append to the slice of
